@@ -142,6 +142,22 @@ Definition with_latest (cs : client_state) (h : height) : client_state :=
 
 Record cons_state := { c_time : Z; c_root : bytes; c_nvh : bytes }.
 
+(** [ClientState.Validate] (client_state.go): chain id not blank, trust level
+    accepted by tendermint's [light.ValidateTrustLevel] (whose [num*3] wraps in
+    uint64), non-zero periods and latest height, trusting < unbonding period.
+    (Proof specs are non-nil in every client the harness builds; Unicode white
+    space beyond ASCII is not modelled.) *)
+Definition is_space (b : byte) : bool :=
+  let n := Byte.to_N b in ((9 <=? n) && (n <=? 13))%N || (n =? 32)%N.
+Definition trust_level_valid (num den : N) : bool :=
+  negb ((((num * 3) mod two64N <? den) || (den <? num) || (den =? 0))%N).
+Definition client_validate (cs : client_state) : bool :=
+  negb (forallb is_space (cs_chain_id cs)) &&
+  trust_level_valid (cs_tl_num cs) (cs_tl_den cs) &&
+  negb (cs_trusting cs =? 0) && negb (cs_unbonding cs =? 0) && negb (cs_drift cs =? 0) &&
+  negb (h_hgt (cs_latest cs) =? 0)%N &&
+  (cs_trusting cs <? cs_unbonding cs).
+
 (** what a client-store value decodes to *)
 Inductive value :=
 | VClient (c : client_state)
